@@ -89,6 +89,7 @@ type Exec struct {
 	locals []localObj
 	argTypes []types.Type
 	argFT    bool
+	specIdx  []string // index terms contracts have read slices at (instantiation candidates)
 	fnStatic    map[string]Val // closure reference -> statically known function and bindings
 	ifaceStatic map[string]Val // fresh interface constant -> statically known boxed value
 }
@@ -137,6 +138,17 @@ func (e *Exec) assume(c string) {
 }
 
 func (e *Exec) flag(s string) { e.flags[s] = true }
+
+func (e *Exec) noteIdx(t string) {
+	for _, x := range e.specIdx {
+		if x == t {
+			return
+		}
+	}
+	if len(e.specIdx) < 12 {
+		e.specIdx = append(e.specIdx, t)
+	}
+}
 
 // defArray defines the array constant name pointwise: name[idx] = body (idx ranges over BV64).
 // The line is rendered per solver: a lambda equality for z3, a patterned quantifier for cvc5.
